@@ -14,7 +14,7 @@ variable {S E : Type}
 theorem gl_low_byte (v : Nat) : (v &&& 255) % 256 = v % 256 := by
   have h255 : (255 : Nat) = 2 ^ 8 - 1 := by decide
   rw [h255, Nat.and_two_pow_sub_one_eq_mod]
-  exact Nat.mod_mod_self
+  exact Nat.mod_mod _ _
 
 theorem gl_limC_chunks (limit v : Nat) :
     (limC limit).chunks v = seqChunks (List.replicate limit u8C) (leBytes limit v) := rfl
@@ -46,7 +46,7 @@ theorem gl_write_u64_limited (st : WStream S E) (v limit : Nat) (hv : v < 256 ^ 
 theorem gl_write_u64_limited_panics (st : WStream S E) (v limit : Nat) (hv : 256 ^ limit ≤ v) :
     write_u64_limited st v limit = wbind (runChunks st ((limC limit).chunks v)) fun _ => wpanic := by
   have h0 : (v / 256 ^ limit == 0) = false := by
-    have : 0 < v / 256 ^ limit := Nat.div_pos hv (Nat.pos_pow (by decide))
+    have : 0 < v / 256 ^ limit := Nat.div_pos hv (Nat.pow_pos (by decide))
     simp; omega
   simp only [write_u64_limited, gl_write_loop, List.length_range', Nat.sub_zero, gl_limC_chunks, wbind_assoc, wbind_wpure, h0]
   simp
@@ -65,10 +65,10 @@ theorem gl_or_add (acc b s : Nat) (hacc : acc < 256 ^ s) (hb : b < 256) (hs : s 
   have hlt : b <<< (8 * s) < 18446744073709551616 := by
     rw [Nat.shiftLeft_eq, hp]
     have h1 : 256 ^ s ≤ 256 ^ 7 := Nat.pow_le_pow_right (by decide) (by omega)
-    calc b * 256 ^ s < 256 * 256 ^ s := Nat.mul_lt_mul_of_pos_right hb (Nat.pos_pow (by decide))
+    calc b * 256 ^ s < 256 * 256 ^ s := Nat.mul_lt_mul_of_pos_right hb (Nat.pow_pos (by decide))
       _ ≤ 256 * 256 ^ 7 := Nat.mul_le_mul_left _ h1
       _ = 18446744073709551616 := by decide
-  rw [Nat.mod_eq_of_lt hlt, Nat.lor_comm]
+  rw [Nat.mod_eq_of_lt hlt, Nat.or_comm]
   have hacc' : acc < 2 ^ (8 * s) := by rw [hp]; exact hacc
   rw [← Nat.shiftLeft_add_eq_or_of_lt hacc', Nat.shiftLeft_eq, hp]
   ring
@@ -108,11 +108,7 @@ theorem gl_read_loop (k : Nat) (start acc : Nat) (bs : Bytes) (hbs : ∀ b ∈ b
     (For `limit > 8` the code's shift `<< (8 * i)` overflows: a panic in debug builds — never reached, since `limit ≤ 8`.) -/
 theorem gl_read_u64_limited (limit : Nat) (hl : limit ≤ 8) (bs : Bytes) (hbs : ∀ b ∈ bs, b < 256) :
     read_u64_limited limit bs = (limC limit).dec bs := by
-  have hd : (limC limit).dec bs = match seqDec (List.replicate limit u8C) bs with
-      | .error e => .error e
-      | .ok (x, r) => .ok (leVal x, r) := rfl
-  rw [hd]
-  simp only [read_u64_limited, rbind, Nat.sub_zero]
+  simp only [read_u64_limited, rbind, Nat.sub_zero, limC, restrictC, mapC, repC, seqC]
   rw [gl_read_loop limit 0 0 bs hbs (by simp) (by omega)]
   cases seqDec (List.replicate limit u8C) bs with
   | error e => rfl
